@@ -314,6 +314,15 @@ func EagerSpawn(on bool)       {}
 func ExploreOrder(on bool)     {}
 func Drain()                   {}
 func QlzBoth()                 {}
+
+// QlzReal makes the engine execute the LLVM IR of the current quicklz/quicklz.c for
+// qlz_compress/qlz_decompress instead of the contract stub (natively: no-op, the real C runs).
+func QlzReal() {}
+
+// KnownMemError classifies engine-detected memory-safety violations whose description contains
+// pattern as the known finding id (see known_findings.json); any other engine-detected violation
+// is still reported. Natively a no-op: the native confirmation is AddressSanitizer's report.
+func KnownMemError(id, pattern string) {}
 func KillOthers()              {}
 func Yield(label string)       {}
 func DeadlockIsViolation()     {}
